@@ -370,6 +370,143 @@ Section Proofs.
       by (unfold letters; apply map_ext; intros q; rewrite Hg; reflexivity).
     f_equal. ring.
   Qed.
+
+  (* ----- keys of the product: distinct keys stay distinct, no key is invented ----- *)
+  Lemma pm_pop_keys_incl m q : incl (pm_keys (pm_pop m q)) (pm_keys m).
+  Proof.
+    induction m as [|[k v] m IH]; simpl; [apply incl_refl|].
+    destruct (k =? q)%Z; simpl; [apply incl_tl; exact IH|].
+    intros x [<-|Hx]; [left; reflexivity|right; apply IH; exact Hx].
+  Qed.
+  Lemma pm_pop_notin m q : ~ In q (pm_keys (pm_pop m q)).
+  Proof.
+    induction m as [|[k v] m IH]; simpl; [tauto|].
+    destruct (Z.eqb_spec k q) as [->|Hne]; simpl; [exact IH|]. intros [H|H]; [contradiction|apply IH; exact H].
+  Qed.
+  Lemma pm_pop_nodup m q : NoDup (pm_keys m) -> NoDup (pm_keys (pm_pop m q)).
+  Proof.
+    induction m as [|[k v] m IH]; simpl; intros H; [constructor|].
+    inversion H as [|? ? Hk Hm]. subst. destruct (k =? q)%Z; simpl; [apply IH; exact Hm|].
+    constructor; [|apply IH; exact Hm]. intros Hin. apply Hk. apply (pm_pop_keys_incl m q). exact Hin.
+  Qed.
+  Lemma nodup_snoc {A} (l : list A) x : NoDup l -> ~ In x l -> NoDup (l ++ [x]).
+  Proof.
+    induction l as [|y l IH]; simpl; intros H Hx; [constructor; [tauto|constructor]|].
+    inversion H as [|? ? Hy Hl]. subst. constructor.
+    - intros Hin. apply in_app_or in Hin. destruct Hin as [Hin|[<-|[]]]; [contradiction|]. apply Hx. left. reflexivity.
+    - apply IH; [exact Hl|]. intros Hin. apply Hx. right. exact Hin.
+  Qed.
+  Lemma pm_set_nodup m q p : NoDup (pm_keys m) -> NoDup (pm_keys (pm_set m q p)).
+  Proof.
+    intros H. unfold pm_set. destruct (is_pI p); [apply pm_pop_nodup; exact H|].
+    unfold pm_keys. rewrite map_app. simpl. apply nodup_snoc; [apply pm_pop_nodup; exact H|apply pm_pop_notin].
+  Qed.
+  Lemma pm_set_incl m q p : incl (pm_keys (pm_set m q p)) (q :: pm_keys m).
+  Proof.
+    unfold pm_set. destruct (is_pI p).
+    - apply incl_tl. apply pm_pop_keys_incl.
+    - unfold pm_keys. rewrite map_app. simpl. intros x Hx. apply in_app_or in Hx. destruct Hx as [Hx|[<-|[]]].
+      + right. apply (pm_pop_keys_incl m q). exact Hx.
+      + left. reflexivity.
+  Qed.
+  Lemma imul_map_keys sign : forall items m ph, NoDup (pm_keys m) ->
+    NoDup (pm_keys (fst (fold_left (atom_step sign) items (m, ph))))
+    /\ incl (pm_keys (fst (fold_left (atom_step sign) items (m, ph)))) (pm_keys m ++ pm_keys items).
+  Proof.
+    induction items as [|[q0 l0] items IH]; intros m ph Hm.
+    - simpl. split; [exact Hm|]. rewrite app_nil_r. apply incl_refl.
+    - change (fold_left (atom_step sign) ((q0, l0) :: items) (m, ph))
+        with (fold_left (atom_step sign) items
+                (pm_set m q0 (pxor l0 (pm_get m q0)), (ph + atom_phase l0 (pm_get m q0) sign)%Z)).
+      destruct (IH (pm_set m q0 (pxor l0 (pm_get m q0))) (ph + atom_phase l0 (pm_get m q0) sign)%Z
+                   (pm_set_nodup m q0 _ Hm)) as [Hnd Hin].
+      split; [exact Hnd|]. intros x Hx. apply Hin in Hx. apply in_app_or in Hx. simpl. apply in_or_app.
+      destruct Hx as [Hx|Hx]; [|right; right; exact Hx].
+      apply pm_set_incl in Hx. destruct Hx as [<-|Hx]; [right; left; reflexivity|left; exact Hx].
+  Qed.
+  Definition keys_ok (qs : list qid) (m : pmap) : Prop := NoDup (pm_keys m) /\ incl (pm_keys m) qs.
+  Lemma imul_items_keys_ok sign qs (P : pstr) items :
+    keys_ok qs (pm P) -> incl (pm_keys items) qs -> keys_ok qs (pm (imul_items O sign P items)).
+  Proof.
+    intros [Hnd Hin] Hitems. unfold imul_items, imul_map. simpl pm.
+    destruct (imul_map_keys sign items (pm P) 0%Z Hnd) as [H1 H2]. split; [exact H1|].
+    intros x Hx. apply H2 in Hx. apply in_app_or in Hx. destruct Hx; [apply Hin|apply Hitems]; assumption.
+  Qed.
+  Lemma imul_keys_ok sign qs (P Q : pstr) :
+    keys_ok qs (pm P) -> incl (pm_keys (pm Q)) qs -> keys_ok qs (pm (imul O sign P Q)).
+  Proof. intros HP HQ. unfold imul. apply (imul_items_keys_ok sign qs (mkP _ (pm P)) (pm Q)); assumption. Qed.
+  Lemma keys_ok_nil qs : keys_ok qs []. Proof. split; [constructor|intros x []]. Qed.
+
+  (* ----- scalars ----- *)
+  Lemma dense_matrix_scale c c' l : mscale O c (dense_matrix O c' l) = dense_matrix O (c * c') l.
+  Proof. rewrite !dense_matrix_tab, mscale_tabm. apply tabm_ext. intros; ring. Qed.
+  Lemma dense_matrix_coef_ext c c' l : c = c' -> dense_matrix O c l = dense_matrix O c' l.
+  Proof. intros ->. reflexivity. Qed.
+
+  (* ----- D1: the product of PauliString / MutablePauliString objects ----- *)
+  Theorem imul_sound_right qs (P Q : pstr) : NoDup qs -> keys_ok qs (pm Q) ->
+    ps_matrix O qs (imul O (-1) P Q) = mmul O (ps_matrix O qs P) (ps_matrix O qs Q).
+  Proof.
+    intros Hqs [Hnd Hin]. unfold imul. rewrite imul_items_sound_right by assumption.
+    unfold ps_matrix. simpl coef. simpl pm.
+    rewrite !dense_mul_matrix by (rewrite !letters_length; reflexivity). apply dense_matrix_coef_ext. ring.
+  Qed.
+  Theorem imul_sound_left qs (P Q : pstr) : NoDup qs -> keys_ok qs (pm Q) ->
+    ps_matrix O qs (imul O 1 P Q) = mmul O (ps_matrix O qs Q) (ps_matrix O qs P).
+  Proof.
+    intros Hqs [Hnd Hin]. unfold imul. rewrite imul_items_sound_left by assumption.
+    unfold ps_matrix. simpl coef. simpl pm.
+    rewrite !dense_mul_matrix by (rewrite !letters_length; reflexivity). apply dense_matrix_coef_ext. ring.
+  Qed.
+
+  (* identity string *)
+  Lemma letters_nil qs : letters qs [] = map (fun _ => pI) qs. Proof. reflexivity. Qed.
+  Lemma zip_phase_I_l qs l : zip_phase (map (fun _ : qid => pI) qs) l = 0%Z.
+  Proof. revert l. induction qs as [|q qs IH]; intros [|x l]; simpl; try reflexivity. rewrite IH, ?mul_phase_I_l. reflexivity. Qed.
+  Lemma zip_phase_I_r qs l : zip_phase l (map (fun _ : qid => pI) qs) = 0%Z.
+  Proof. revert l. induction qs as [|q qs IH]; intros [|x l]; simpl; try reflexivity. rewrite IH, ?mul_phase_I_r. reflexivity. Qed.
+  Lemma zip_xor_I_l qs l : length l = length qs -> zip_xor (map (fun _ : qid => pI) qs) l = l.
+  Proof. revert l. induction qs as [|q qs IH]; intros [|x l] H; try discriminate; simpl; [reflexivity|]. rewrite ?pxor_I_l, IH by (simpl in H; lia). reflexivity. Qed.
+  Lemma zip_xor_I_r qs l : length l = length qs -> zip_xor l (map (fun _ : qid => pI) qs) = l.
+  Proof. revert l. induction qs as [|q qs IH]; intros [|x l] H; try discriminate; simpl; [reflexivity|]. rewrite ?pxor_I_r, IH by (simpl in H; lia). reflexivity. Qed.
+  Definition id_matrix (qs : list qid) : Kmat := dense_matrix O z1 (map (fun _ => pI) qs).
+  Lemma id_matrix_l qs c l : length l = length qs -> mmul O (id_matrix qs) (dense_matrix O c l) = dense_matrix O c l.
+  Proof.
+    intros H. unfold id_matrix. rewrite dense_mul_matrix by (rewrite map_length; lia).
+    rewrite zip_phase_I_l, zip_xor_I_l by exact H. apply dense_matrix_coef_ext. rewrite ipow_0. ring.
+  Qed.
+  Lemma id_matrix_r qs c l : length l = length qs -> mmul O (dense_matrix O c l) (id_matrix qs) = dense_matrix O c l.
+  Proof.
+    intros H. unfold id_matrix. rewrite dense_mul_matrix by (rewrite map_length; lia).
+    rewrite zip_phase_I_r, zip_xor_I_r by exact H. apply dense_matrix_coef_ext. rewrite ipow_0. ring.
+  Qed.
+  Lemma ps_matrix_empty qs : ps_matrix O qs (ps_empty O) = id_matrix qs. Proof. reflexivity. Qed.
+
+  (* PauliString.__mul__ *)
+  Theorem pauli_mul_sound qs (a b : pstr) : NoDup qs -> keys_ok qs (pm b) ->
+    ps_matrix O qs (ps_mul O a b) = mmul O (ps_matrix O qs a) (ps_matrix O qs b).
+  Proof.
+    intros Hqs Hb. unfold ps_mul, ps_make, imul_contents, imul_seq. simpl fold_left.
+    rewrite imul_sound_right; [|exact Hqs|apply imul_keys_ok; [apply keys_ok_nil|apply Hb]].
+    rewrite (imul_sound_right qs (ps_empty O) b Hqs Hb), ps_matrix_empty.
+    change (ps_matrix O qs b) with (dense_matrix O (coef b) (letters qs (pm b))).
+    rewrite id_matrix_l by apply letters_length. reflexivity.
+  Qed.
+  (* number on either side, division by d when c = 1/d, negation *)
+  Theorem ps_scale_sound qs (a : pstr) c : ps_matrix O qs (ps_scale O a c) = mscale O c (ps_matrix O qs a).
+  Proof. unfold ps_matrix, ps_scale. simpl. rewrite dense_matrix_scale. apply dense_matrix_coef_ext. ring. Qed.
+  Theorem ps_neg_sound qs (a : pstr) : ps_matrix O qs (ps_neg O a) = mscale O (- z1) (ps_matrix O qs a).
+  Proof. unfold ps_matrix, ps_neg. simpl. rewrite dense_matrix_scale. apply dense_matrix_coef_ext. ring. Qed.
+  Theorem ps_mul_num_sound qs (a : pstr) c : NoDup qs ->
+    ps_matrix O qs (ps_mul_num O a c) = mscale O c (ps_matrix O qs a).
+  Proof.
+    intros Hqs. unfold ps_mul_num, ps_make, imul_contents, imul_seq. simpl fold_left.
+    rewrite imul_sound_right; [|exact Hqs|apply keys_ok_nil].
+    unfold ps_matrix. simpl coef. simpl pm. rewrite letters_nil.
+    rewrite dense_mul_matrix by (rewrite letters_length, map_length; reflexivity).
+    rewrite zip_phase_I_r, zip_xor_I_r, dense_matrix_scale by apply letters_length.
+    apply dense_matrix_coef_ext. rewrite ipow_0. ring.
+  Qed.
 End Proofs.
 
 (* ---------- the executable comparison instance Q(i) satisfies the laws the theorems assume ---------- *)
